@@ -415,4 +415,12 @@ def rule_one_engine(ctx: Ctx, rule: str = "C03.elect"):
     rep.floor(rule, "sites that install the engine", n, 2)
 
 
-RULES = [rule_put, rule_fifo, rule_elect, rule_rtc, rule_first, rule_nonrtc, rule_guarded_pop, rule_depth, rule_release, rule_one_engine]
+def rule_result_is_the_events_own(ctx: Ctx):
+    """C03.first: what the outermost call returns is the result of the first event as that event's transition produced it -
+    `None`, the single value or the list, whatever the value is (0, False and '' are results, not "no result")."""
+    from . import c14
+
+    c14.rule_flow(ctx, flow="C03.first", unwrap="C03.first")
+
+
+RULES = [rule_put, rule_fifo, rule_elect, rule_rtc, rule_first, rule_nonrtc, rule_guarded_pop, rule_depth, rule_release, rule_one_engine, rule_result_is_the_events_own]
